@@ -61,7 +61,8 @@ impl<I: SendmsgSyscall> SendmsgSyscall for NioSendmsgSyscall<I> {
         let mut r = 0;
         let mut index = 0;
         for iovec in &vec {
-            let mut offset = sent.saturating_sub(length);
+            let stage = length;
+            let mut offset = sent.saturating_sub(stage);
             length += iovec.iov_len;
             if sent > length {
                 index += 1;
@@ -87,9 +88,11 @@ impl<I: SendmsgSyscall> SendmsgSyscall for NioSendmsgSyscall<I> {
             }
             while sent < length && left_time > 0 {
                 if 0 != offset {
+                    // always advance from the caller's original entry, the loop may come
+                    // back here several times for the same iovec
                     iov[0] = libc::iovec {
-                        iov_base: (iov[0].iov_base as usize + offset) as *mut c_void,
-                        iov_len: iov[0].iov_len - offset,
+                        iov_base: (iovec.iov_base as usize + offset) as *mut c_void,
+                        iov_len: iovec.iov_len - offset,
                     };
                 }
                 let arg = msghdr {
@@ -109,7 +112,9 @@ impl<I: SendmsgSyscall> SendmsgSyscall for NioSendmsgSyscall<I> {
                         r = sent.try_into().expect("sent overflow");
                         break;
                     }
-                    offset = sent.saturating_sub(length);
+                    offset = sent.saturating_sub(stage);
+                    // a partial transfer ends the call: report everything moved so far
+                    r = sent.try_into().expect("sent overflow");
                 }
                 let error_kind = Error::last_os_error().kind();
                 if error_kind == ErrorKind::WouldBlock {
@@ -124,12 +129,21 @@ impl<I: SendmsgSyscall> SendmsgSyscall for NioSendmsgSyscall<I> {
                         if blocking {
                             set_blocking(fd);
                         }
+                        if sent > 0 {
+                            reset_errno();
+                            return sent.try_into().expect("sent overflow");
+                        }
                         return r;
                     }
                 } else if error_kind != ErrorKind::Interrupted {
                     std::mem::forget(vec);
                     if blocking {
                         set_blocking(fd);
+                    }
+                    if r == -1 && sent > 0 {
+                        // bytes were already moved: report them, not the late failure
+                        reset_errno();
+                        return sent.try_into().expect("sent overflow");
                     }
                     return r;
                 }
@@ -141,6 +155,11 @@ impl<I: SendmsgSyscall> SendmsgSyscall for NioSendmsgSyscall<I> {
         std::mem::forget(vec);
         if blocking {
             set_blocking(fd);
+        }
+        if sent > 0 {
+            // e.g. the time limit expired after some bytes were moved
+            reset_errno();
+            return sent.try_into().expect("sent overflow");
         }
         r
     }
